@@ -17,6 +17,19 @@ type CharClass struct {
 }
 
 func (t *CharClass) RunPass(ctx *Context, pass Pass) {
+	switch pass {
+	case Check:
+		for _, item := range t.CharClassItems {
+			if item.From > item.To {
+				ctx.Errs.Errorf(
+					ctx.Position(t),
+					"invalid character class range: %q is greater than %q",
+					item.From, item.To)
+				return
+			}
+		}
+	}
+
 	RunPass(ctx, t.CharClassItems, pass)
 }
 
